@@ -16,8 +16,8 @@ import (
 
 var pitchVal = map[byte]int{'C': 0, 'D': 2, 'E': 4, 'F': 5, 'G': 7, 'A': 9, 'B': 11}
 
-// ref: (accepted, value, dontCare). dontCare: spelling "-0" of octave 0 — not one of the
-// 128 names, but reading it as octave 0 is not "mapping to some other note" either.
+// ref: (accepted, value, dontCare). The octave is one of -2 -1 0 1 ... 8 written exactly so: "-0" is not a spelling of 0
+// ("C-0" is none of the 128 names and must be rejected like every other string).
 func ref(s string) (ok bool, val int, dontCare bool) {
 	if len(s) < 2 {
 		return false, 0, false
@@ -46,9 +46,6 @@ func ref(s string) (ok bool, val int, dontCare bool) {
 		oct = -1
 	case rest == "-2":
 		oct = -2
-	case rest == "-0":
-		oct = 0
-		dontCare = true
 	default:
 		return false, 0, false
 	}
